@@ -1008,10 +1008,10 @@ func (h *hist) independence(tag string, pts []*genPoint, res map[int64]*outcome)
 
 // ------------------------------------------------------------ directed cases
 
-const numDirected = 6
+const numDirected = 7
 
 func directedName(d int) string {
-	return []string{"", "truncation-straddle", "truncation-then-shorter-shard-duration", "min-time", "boundaries", "truncation-at-epoch", "expired-point-with-companion"}[d]
+	return []string{"", "truncation-straddle", "truncation-then-shorter-shard-duration", "min-time", "boundaries", "truncation-at-epoch", "expired-point-with-companion", "deleted-short-group-inside-a-longer-group"}[d]
 }
 
 // runDirected runs small hand-built histories: the minimal reproductions of
@@ -1122,6 +1122,33 @@ func runDirected(cl *cluster, db, caseID string, d int) {
 		h.evalBatch("expired-alone", 0, false, []*genPoint{mk(0, p.UnixNano())}, true)
 		h.evalBatch("expired-with-companion", 0, false, []*genPoint{mk(0, q.Add(time.Minute).UnixNano()), mk(0, p.UnixNano())}, true)
 		h.evalBatch("expired-with-companion-write", 0, true, []*genPoint{mk(1, p.UnixNano()), mk(0, q.Add(time.Minute).UnixNano())}, true)
+	case 7:
+		// 1h groups, the one at +3h is deleted and stays in the metadata; the
+		// shard duration becomes 24h and a day-long group is created around the
+		// deleted one. Groups are sorted by end time, so the deleted short
+		// group now sorts in front of the live long group that starts earlier.
+		h.evalBatch("b0", 0, false, []*genPoint{mk(0, base+3*hour+10)}, true)
+		for _, gr := range h.groups(0) {
+			if !isDeleted(&gr) {
+				if err := c.DeleteShardGroup(h.db, rpName, gr.ID); err != nil {
+					harnessFail("DeleteShardGroup: %v", err)
+				}
+				h.op("DeleteShardGroup(%d [%s,%s))", gr.ID, fmtT(gr.StartTime), fmtT(gr.EndTime))
+			}
+		}
+		rpu := &meta.RetentionPolicyUpdate{}
+		rpu.SetShardGroupDuration(24 * time.Hour)
+		if err := c.UpdateRetentionPolicy(h.db, rpName, rpu, true); err != nil {
+			harnessFail("UpdateRetentionPolicy: %v", err)
+		}
+		h.curSGD = 24 * time.Hour
+		h.sgds = append(h.sgds, h.curSGD)
+		h.op("ALTER RETENTION POLICY SHARD DURATION 24h")
+		h.evalBatch("after-the-deleted-group", 0, false, []*genPoint{mk(0, base+5*hour)}, true)
+		h.evalBatch("before-the-deleted-group-alone", 0, false, []*genPoint{mk(0, base+hour)}, true)
+		h.evalBatch("before-the-deleted-group-alone-write", 0, true, []*genPoint{mk(1, base+2*hour)}, true)
+		h.evalBatch("inside-the-deleted-group", 0, false, []*genPoint{mk(0, base+3*hour+20)}, true)
+		h.evalBatch("both-sides", 0, false, []*genPoint{mk(0, base+hour+1), mk(0, base+6*hour), mk(2, base+3*hour+30)}, true)
 	case 4:
 		var pts []*genPoint
 		for k := int64(0); k < 3; k++ {
